@@ -829,9 +829,146 @@ def declaration_atomicity(rep: report.Report) -> None:
     rep.functions.update(["measured.Unit.equals", "measured.conversions.equate"])
 
 
+SCALE_REPLAY = """
+from decimal import Decimal
+from measured import Length, Temperature, Unit, conversions
+from measured.si import Meter, Second, Kilo, Kelvin
+def snapshot():
+    return (dict(Unit._by_name), dict(Unit._by_symbol), set(Unit._base), dict(Unit._known),
+            {{u: dict(v) for u, v in conversions._ratios.items() if v}},
+            {{u: dict(v) for u, v in conversions._offsets.items() if v}})
+before = snapshot()
+zero = {zero}
+try:
+    Length.scale(zero, 'c19 scale', 'c19sc')
+    print('the definition was accepted'); sys.exit(0)
+except Exception as e:
+    print('Length.scale(', repr(zero), ", 'c19 scale', 'c19sc') raised", type(e).__name__, e)
+after = snapshot()
+names = ('names', 'symbols', 'base units', 'interned units', 'ratios', 'offsets')
+changed = [n for n, b, a in zip(names, before, after) if a != b]
+print('registries changed by the failed definition:', changed)
+if changed:
+    print('REPRODUCED: a definition that raised left part of itself behind')
+    try:
+        Length.scale(3 * Meter, 'c19 scale', 'c19sc')
+    except Exception as e:
+        print('   and the corrected definition is now refused:', type(e).__name__, e)
+    sys.exit(1)
+sys.exit(0)
+"""
+
+SPECIALS = {"dec": ["Decimal('NaN')", "Decimal('sNaN')", "Decimal('Infinity')", "Decimal('-Infinity')"],
+            "float": ["float('nan')", "float('inf')", "float('-inf')"], "int": []}
+ZERO_SHAPES = [("a quantity of the dimension", "{m} * Meter"),
+               ("a quantity of the dimension in a prefixed unit", "{m} * (Kilo * Meter)"),
+               ("a quantity of another dimension", "{m} * Second"),
+               ("a quantity of a compound unit of another dimension", "{m} * (Meter / Second)"),
+               ("a plain number where a quantity is expected", "{m}")]
+
+
+def scale_atomicity(rep: report.Report) -> None:
+    """Dimension.scale defines a unit and then declares its zero point: if the second half raises,
+    the first half must not stay behind.  The zero point ranges over: its shape (selector variable:
+    a quantity of the dimension, prefixed, of another dimension, a plain number), and its magnitude
+    (selector variable: a symbolic finite int / float / Decimal, or one of the special values of the
+    type, which are concrete and go through the real arithmetic)."""
+    import measured
+    from decimal import Decimal
+    from measured import Length, Unit, conversions
+    from measured.si import Kilo, Meter, Second
+
+    P = symnum.Prover()
+    regs = [("Unit._by_name", Unit._by_name), ("Unit._by_symbol", Unit._by_symbol),
+            ("Unit._known", Unit._known), ("Unit._base", Unit._base)]
+    env = {"Meter": Meter, "Second": Second, "Kilo": Kilo, "Decimal": Decimal, "float": float}
+    for kind in ("float", "dec", "int"):
+        mv = symnum.var(kind, "c19_zero")
+        sel_shape, sel_mag = z3.Int("c19_zero_shape"), z3.Int("c19_zero_special")
+        specials = SPECIALS[kind]
+
+        def fn() -> Any:
+            c = symnum.ctx()
+            # magnitude: 0 = finite (symbolic), i >= 1 = the i-th special value
+            mag: Any = None
+            mcode = None
+            for i, sp in enumerate(specials, 1):
+                if c.decide(sel_mag == i):
+                    mag, mcode = eval(sp, dict(env)), sp
+                    break
+            if mag is None:
+                c.assume(sel_mag == 0)
+                mag = symnum.mk(kind, mv)
+            shape = len(ZERO_SHAPES) - 1
+            for j in range(len(ZERO_SHAPES) - 1):
+                if c.decide(sel_shape == j):
+                    shape = j
+                    break
+            else:
+                c.assume(sel_shape == shape)
+            zero = eval(ZERO_SHAPES[shape][1].format(m="M"), dict(env, M=mag))
+            before = [dict(r) if isinstance(r, dict) else set(r) for _, r in regs]
+            tables = ({u: dict(v) for u, v in conversions._ratios.items() if v},
+                      {u: dict(v) for u, v in conversions._offsets.items() if v})
+            raised = None
+            try:
+                Length.scale(zero, "c19 symbolic scale", "c19ssc")
+            except symnum.HarnessError:
+                raise
+            except Exception as e:
+                raised = type(e).__name__
+            finally:
+                changed = [n for (n, r), b in zip(regs, before) if (dict(r) if isinstance(r, dict) else set(r)) != b]
+                t2 = ({u: dict(v) for u, v in conversions._ratios.items() if v},
+                      {u: dict(v) for u, v in conversions._offsets.items() if v})
+                if t2 != tables:
+                    changed.append("conversion tables")
+                # put everything back: every path starts from the same state
+                for (_, r), b in zip(regs, before):
+                    r.clear()
+                    r.update(b)
+                for tbl, old in zip((conversions._ratios, conversions._offsets), tables):
+                    for u in list(tbl):
+                        if u not in old:
+                            del tbl[u]
+                        else:
+                            tbl[u].clear()
+                            tbl[u].update(old[u])
+                conversions._find_path.cache_clear()
+                conversions._plan_conversion.cache_clear()
+            return {"raised": raised, "changed": changed, "shape": shape, "special": mcode}
+
+        with symnum.Shims():
+            ex = explore(fn, max_paths=128)
+        rep.merge_stats(queries=ex.queries, solver_s=ex.solver_s, paths=len(ex.paths))
+        for i, p in enumerate(ex.paths):
+            key = ("scale-atomicity", kind, i)
+            if p.exc is not None:
+                rep.ob("unknown", f"Dimension.scale/{kind}#p{i}: {p.outcome}", key)
+                continue
+            r = p.result
+            what = f"{ZERO_SHAPES[r['shape']][0]}, magnitude {r['special'] or 'finite ' + kind}"
+            if r["raised"] is None or not r["changed"]:
+                rep.ob("unsat", f"Dimension.scale/{kind}#p{i} ({what}): "
+                                f"{'accepted' if r['raised'] is None else 'raises ' + r['raised'] + ' and leaves nothing behind'}", key)
+                continue
+            rep.ob("sat", f"Dimension.scale/{kind}#p{i} ({what}): raises {r['raised']} after changing {r['changed']}", key)
+            if r["special"]:
+                mlit = r["special"]
+            else:
+                m = P.shaped_model([p.cond], [mv]) or {}
+                mlit = work.lit(kind, m.get(str(mv), Fraction(3)))
+            rep.violation("C19:atomicity:Dimension.scale",
+                          f"Dimension.scale with {what} as the zero point raises {r['raised']} but has already changed "
+                          f"{r['changed']}",
+                          families.REPLAY_IMPORTS + SCALE_REPLAY.format(zero=ZERO_SHAPES[r["shape"]][1].format(m=mlit)))
+    rep.functions.update(["measured.Dimension.scale", "measured.conversions.translate"])
+
+
 def main(tier: str, selftest_cases: int = 0) -> int:
     rep = report.Report(PID, tier, "other")
     declaration_atomicity(rep)
+    scale_atomicity(rep)
     tasks = families.shuffled(tasks_for(tier), rep.seed)
     results = par.run("props.c19", "worker", tasks)
     work.merge(rep, results)
